@@ -5,6 +5,8 @@ package main
 import (
 	"fmt"
 	"os"
+	"runtime/debug"
+	"strings"
 
 	"verifharness/hx"
 )
@@ -29,7 +31,21 @@ func main() {
 	func() {
 		defer func() {
 			if p := recover(); p != nil {
-				r.SetInfra("harness panic in %s: %v", os.Args[1], p)
+				// a panic raised inside go-spring/log that reached the top of the harness is an
+				// observation about the library; anything else is a harness defect
+				st := string(debug.Stack())
+				lib := ""
+				for _, line := range strings.Split(st, "\n") {
+					if strings.HasPrefix(line, "github.com/go-spring/log.") || strings.HasPrefix(line, "github.com/go-spring/log/") {
+						lib = strings.SplitN(line, "(", 2)[0]
+						break
+					}
+				}
+				if lib != "" {
+					r.Violate("panic-in-library:"+lib, map[string]any{"command": os.Args[1]}, "unguarded call panicked inside %s: %v", lib, p)
+				} else {
+					r.SetInfra("harness panic in %s: %v\n%s", os.Args[1], p, st)
+				}
 			}
 		}()
 		fn(f, r)
